@@ -159,6 +159,33 @@ def _free_name(name: str, taken: set[str]) -> str:
     return name
 
 
+def _check_function_names(fns: list[SymbolicFn]) -> None:
+    """Refuse two different functions with the same name.
+
+    The functions of derived quantities and reactions are written once, under their own
+    name, and called with the arguments of every component that uses them. So every use
+    has to be that one function applied to its arguments. The function of a name is taken
+    from its first use with distinct arguments.
+    """
+    written: dict[str, tuple[list[sympy.Symbol], sympy.Expr]] = {}
+    for fn in fns:
+        if fn.fn_name not in written and len(set(fn.args)) == len(fn.args):
+            positional = [sympy.Symbol(f"_arg{i}") for i in range(len(fn.args))]
+            written[fn.fn_name] = (
+                positional,
+                fn.expr.xreplace(dict(zip(list_of_symbols(fn.args), positional))),
+            )
+    for fn in fns:
+        if (ref := written.get(fn.fn_name)) is None:
+            continue
+        positional, expr = ref
+        if len(positional) != len(fn.args) or fn.expr != expr.xreplace(
+            dict(zip(positional, list_of_symbols(fn.args)))
+        ):
+            msg = f"Two different functions are called '{fn.fn_name}', unable to write both"
+            raise ValueError(msg)
+
+
 def _codegen_variable(
     k: str,
     var: SymbolicVariable,
@@ -215,6 +242,10 @@ def generate_mxlpy_code_from_symbolic_repr(
     taken = {fn.fn_name for fn in model.derived.values()} | {
         rxn.fn.fn_name for rxn in model.reactions.values()
     }
+
+    _check_function_names(
+        [*model.derived.values(), *(rxn.fn for rxn in model.reactions.values())]
+    )
 
     # Variables
     variable_source = []
